@@ -74,7 +74,8 @@ fn forms(ctx: &mut Ctx, env: &Env, rng: &mut Rng, base: &Engine, descr: &str) {
         .iter()
         .map(|s| {
             let a = t;
-            t += rng.range(0, 3_000_000) as u64;
+            // (one line in ten gets an empty segment: start == end)
+            t += if rng.chance(0.1) { 0 } else { rng.range(0, 3_000_000) as u64 };
             if rng.chance(0.8) {
                 format!("{} {} {}", a, t, s)
             } else {
